@@ -203,6 +203,7 @@ type obsReply struct {
 	Relay   string      `json:"relay"`
 	Cookies []obsCookie `json:"cookies"`
 	Ran     bool        `json:"handler_ran"`
+	Forms   int         `json:"forms_in_page"`
 	Panic   bool        `json:"panic,omitempty"`
 }
 
@@ -283,11 +284,14 @@ func (w *world) observe(rec *httptest.ResponseRecorder, ran bool) obsReply {
 		} else {
 			o.LocKind, o.Loc = "url", loc
 		}
-	} else if rec.Code == 200 && !ran {
-		for _, m := range reForm.FindAllStringSubmatch(rec.Body.String(), -1) {
-			if m[1] == "RelayState" {
-				o.Relay = htmlUnescape(m[2])
-			}
+	}
+	if !ran {
+		// the WHOLE page the middleware wrote: how many forms, and the one a browser submits
+		// (the page's script submits the first element bearing the form's id)
+		body := rec.Body.String()
+		o.Forms = strings.Count(strings.ToLower(body), "<form")
+		if rec.Header().Get("Location") == "" && rec.Code == 200 {
+			o.Relay = firstForm(body).Get("RelayState")
 		}
 	}
 	for _, ck := range rec.Result().Cookies() {
@@ -331,6 +335,27 @@ func (w *world) observe(rec *httptest.ResponseRecorder, ran bool) obsReply {
 }
 
 func htmlUnescape(s string) string { return html.UnescapeString(s) }
+
+// firstForm returns the SAMLRequest / RelayState fields of the first form of a page
+func firstForm(body string) url.Values {
+	v := url.Values{}
+	lower := strings.ToLower(body)
+	i := strings.Index(lower, "<form")
+	if i < 0 {
+		return v
+	}
+	end := strings.Index(lower[i:], "</form")
+	seg := body[i:]
+	if end >= 0 {
+		seg = body[i : i+end]
+	}
+	for _, m := range reForm.FindAllStringSubmatch(seg, -1) {
+		if v.Get(m[1]) == "" {
+			v.Set(m[1], htmlUnescape(m[2]))
+		}
+	}
+	return v
+}
 
 // iat and exp (whole seconds, 0 when absent) of a JWT, without looking at anything else
 func registeredTimes(token string) (iat, exp int64) {
@@ -415,7 +440,7 @@ func orTerm(o obsReply) string {
 	if o.Panic {
 		st = 599
 	}
-	return fmt.Sprintf("{| or_status := %d; or_loc := %s; or_relay := %s; or_cookies := %s; or_ran := %s |}", st, loc, emit.Str(o.Relay), emit.List(cs), emit.Bool(o.Ran))
+	return fmt.Sprintf("{| or_status := %d; or_loc := %s; or_relay := %s; or_cookies := %s; or_ran := %s; or_forms := %d |}", st, loc, emit.Str(o.Relay), emit.List(cs), emit.Bool(o.Ran), o.Forms)
 }
 
 const t0C17 = int64(1700000000)*nsPerS + 250000000
@@ -636,18 +661,31 @@ func runHistory(cfg worldCfg, hist []absStep, seed int64) (res execResult) {
 				f.rid = authnRequestID(u.Query().Get("SAMLRequest"), true)
 			}
 		} else {
-			f.reqForm = url.Values{}
-			for _, m := range reForm.FindAllStringSubmatch(rec.Body.String(), -1) {
-				f.reqForm.Set(m[1], htmlUnescape(m[2]))
-			}
+			f.reqForm = firstForm(rec.Body.String())
 			f.rid = authnRequestID(f.reqForm.Get("SAMLRequest"), false)
 		}
 		return o, f
 	}
 
+	expForms := 0
+	if cfg.Post {
+		expForms = 1
+	}
 	for _, st := range hist {
 		clock()
 		switch st.Op {
+		case "start-broken-writer":
+			// a protected page requested over a connection that fails on the first body write: nothing
+			// reaches the browser (no script step); it must not leave anything behind for later requests
+			w.relayNext = st.Relay0
+			func() {
+				defer func() { recover() }()
+				req := httptest.NewRequest("GET", st.URL, nil)
+				req.Host = "sp.example.com"
+				h := w.mw.RequireAccount(http.HandlerFunc(func(rw http.ResponseWriter, r *http.Request) { rw.WriteHeader(200) }))
+				h.ServeHTTP(&brokenWriter{h: http.Header{}}, req)
+			}()
+			res.steps = append(res.steps, st)
 		case "advance":
 			if st.DT < 0 {
 				continue
@@ -672,6 +710,8 @@ func runHistory(cfg worldCfg, hist []absStep, seed int64) (res execResult) {
 				fail("custom relay state not used: %+v", o)
 			} else if idx == "" {
 				fail("flow tracked under an empty index: %+v", o)
+			} else if o.Forms != expForms {
+				fail("start page holds %d forms, expected %d", o.Forms, expForms)
 			}
 			checkFlags(o, false)
 			custom, rnd := startDraw(cfg, st, idx, f != nil)
@@ -707,6 +747,9 @@ func runHistory(cfg worldCfg, hist []absStep, seed int64) (res execResult) {
 			}
 			if !o.Ran && f != nil && idx == "" {
 				fail("flow tracked under an empty index: %+v", o)
+			}
+			if !o.Ran && o.Forms != expForms {
+				fail("start page holds %d forms, expected %d", o.Forms, expForms)
 			}
 			checkFlags(o, false)
 			custom, rnd := startDraw(cfg, st, idx, f != nil)
@@ -942,6 +985,16 @@ func startDraw(cfg worldCfg, st absStep, idx string, started bool) (custom, rnd 
 	return custom, rnd
 }
 
+// brokenWriter fails every body write
+type brokenWriter struct {
+	h    http.Header
+	code int
+}
+
+func (b *brokenWriter) Header() http.Header       { return b.h }
+func (b *brokenWriter) Write([]byte) (int, error) { return 0, io.ErrClosedPipe }
+func (b *brokenWriter) WriteHeader(c int)         { b.code = c }
+
 // ---------- generation ----------
 var pageURLs = []string{"/protected/a?x=1", "/protected/b", "/app/c?q=a%20b&r=2", "/d/e/f", "/", "/protected/a?x=1"}
 
@@ -1172,6 +1225,8 @@ func randomHistory(c *Ctx, cfg worldCfg, maxLen int) []absStep {
 				jar = append([]absCookie{{Src: "tracking", Step: g.starts[r.Intn(len(g.starts))], Name: "session"}}, jar...)
 			}
 			g.starts = append(g.starts, g.add(absStep{Op: "page", URL: pageURLs[r.Intn(len(pageURLs))], Jar: jar, Relay0: nextRelay()}))
+		case k == 19 && r.Intn(3) == 0: // a start over a connection that breaks
+			g.add(absStep{Op: "start-broken-writer", URL: pageURLs[r.Intn(len(pageURLs))], Relay0: nextRelay()})
 		default: // advance
 			var dt int64
 			switch r.Intn(8) {
@@ -1233,6 +1288,8 @@ func directedHistories(cfg worldCfg) map[string][]absStep {
 
 	h["single-flow-completes"] = mk(start("/protected/a?x=1"), answer(0, "alice"), deliver(1, "faithful", tr(0)),
 		absStep{Op: "page", URL: "/protected/a?x=1", Jar: []absCookie{{Src: "session", Step: 2, Name: "session"}}})
+	h["broken-writer-then-flows"] = mk(absStep{Op: "start-broken-writer", URL: "/protected/z"}, start("/protected/a?x=1"), absStep{Op: "start-broken-writer", URL: "/protected/y"},
+		start("/protected/b"), answer(3, "alice"), answer(1, "alice"), deliver(4, "faithful", tr(1), tr(3)), deliver(5, "faithful", tr(1), tr(3)))
 	h["no-cookie"] = mk(start("/protected/a?x=1"), answer(0, "alice"), deliver(1, "faithful"))
 	h["no-cookie-no-relay"] = mk(start("/protected/a?x=1"), answer(0, "alice"), deliver(1, "empty"))
 	h["cookie-no-relay-default-redirect"] = mk(start("/protected/a?x=1"), answer(0, "alice"), deliver(1, "empty", tr(0)))
